@@ -7,6 +7,7 @@ from amaranth.hdl import (Module, ClockDomain, Signal, Cat, ClockSignal, ResetSi
 from amaranth.lib.memory import Memory
 from amaranth.sim import Simulator
 
+from vlib.reuse import elaborated_before
 from vlib.runner import Part, Mismatch, HarnessError
 from vlib.gen_expr import INT, BOOL, PICK, value_of_shape
 from vlib.gen_prog import ProgGen, build_program
@@ -402,6 +403,8 @@ def body(ctx, case):
     with warnings.catch_warnings():
         warnings.simplefilter("ignore")
         top, cds, ctls, elabs = build(case)
+        if elaborated_before(case, top):
+            ctx.tally("reuse:design-elaborated-before")
         sim = Simulator(top)
     refs = [NodeRef(nodes, i) for i in range(len(nodes))]
     ref_comb_split(refs)
